@@ -10,7 +10,7 @@ extra={
 'C04': "Departure from the plan: no separate `Factorize` module; the structure semantics lives in `TensorOps` (`LeftFactor`, `RightFactor`, `NewLeg`) so that factor results can flow into further tensor events of the same trace.",
 'C05': "Found (open, known findings): the `ncon`/`einsum` swap scheduler fails for a swap that involves a traced label, and `_resolve_bad_swaps` asserts for some contraction orders (section 5). Both are reproduced and printed as KNOWN-FINDING on every run; any other deviation from the order-free value is a violation.",
 'C06': "Departure from the plan: no separate `Chain`/`MpsAlgebra` modules - the MPS algebra is decided by the *tensor* reference semantics applied to dense representatives, which makes the oracle independent of any MPS-level modelling.",
-'C07': "Found: `generate_mpo` failed when one of several terms has an identically vanishing on-site product (fix 0a73c1f). `Generator.mpo_from_latex` is not covered.",
+'C07': "Found: `generate_mpo` failed when one of several terms has an identically vanishing on-site product (fix 0a73c1f); `Generator.mpo_from_latex` raised IndexError / KeyError for a negated or scaled sum whose body is a bracket (fix 9ef3f1f, found when the LaTeX request form was added).",
 'C08': "Found: `diagonalize_central_` called twice in a row raised a NumPy error (fix db0b2ec).",
 'C09': "Found: 2-site DMRG with a binding truncation returned an unnormalised, non-canonical state and an energy that is not `<H>` in it (fix 971fee6) - visible only as a *relation between logged numbers*, which is what the trace spec checks at every sweep.",
 'C10': "Soundness carve-out found while building: for 1site / 12site, exactness on the full manifold is claimed only if every bond is one-sided (projector splitting keeps an O(dt^3) error otherwise although the manifold is the whole sector) - mathematics of the method, not a defect; claiming more would be a false alarm.",
